@@ -4,6 +4,7 @@ from __future__ import annotations
 import ast
 from typing import Any, Dict, Iterable, List, Optional, Tuple
 
+from ..kit import path_text
 from ..kit import (
     Case, Ctx, caller_ok, calls, calls_target, kw, loops, nf_cmp, normal_paths, poly_of, product_worlds, rule,
     short, stores, table_check_cases,
@@ -37,7 +38,7 @@ def writer_allowlist(ctx: Ctx, cls: str, attr: str, allowed: Dict[str, str], han
             ctx.holds(f, w.node, f"write of {cls}.{attr} in helper {q}", expected="private helper called only from allowed writers", found=w.kind)
         else:
             ctx.violated(f, w.node, f"write of {cls}.{attr} in {q}", "writers: " + ", ".join(sorted(allowed)) + (" + handlers " + "/".join(handler_names) if handler_names else ""),
-                         f"{q} writes {cls}.{attr} ({w.kind})")
+                         f"{q} writes {cls}.{attr} ({w.kind})", guard="site")
     ctx.require(seen > 0, f"no writer of {cls}.{attr} found")
 
 
@@ -258,7 +259,7 @@ def set_time_forwarding(ctx: Ctx, qual: str) -> None:
                         ok = False
                         detail = f"{len(ws)} logger write(s) per log, {len(bp.conds)} extra condition(s)"
             which = key(strip_ver(e.recv)).split(".")[-1] if e.recv is not None else "?"
-            ctx.check(ok, f, e.node, f"every expiration log of the {which} is written once", "for log in <that book>._set_time(t): log.read_and_write(logger)", detail)
+            ctx.check(ok, f, e.node, f"every expiration log of the {which} is written once", "for log in <that book>._set_time(t): log.read_and_write(logger)", detail, guard="text", guard_text=path_text(p))
 
 
 @rule("C04.R5", "every clock write tells both books the new time and forwards each expiry record once", "T4 pairing / T8 siblings", floor=8)
@@ -495,6 +496,9 @@ def r8(ctx: Ctx) -> None:
             if e.kind == "call" and (calls_target(e, "Market._add_order") or calls_target(e, "Market._cancel_order")):
                 a = kw(e, "order", 0) if calls_target(e, "Market._add_order") else kw(e, "cancel", 0)
                 ok = a is not None and a[0] == "sym" and "∈" in a[1]
+                if not ok and a is not None and strip_ver(a)[0] == "call" and any(x.kind == "call" and x.term == a and x.site.how == "ctor" for x in p.walk_events(True)):
+                    ctx.unrec(f, e.node, "the object accepted is the batch element itself", "the runner hands the market an object it has built itself (not an element of an agent's batch): a mechanism next to the one the rule describes", short(a))
+                    continue
                 ctx.check(ok, f, e.node, "the object accepted is the batch element itself", "loop element", short(a))
 
 
@@ -502,6 +506,11 @@ def r8(ctx: Ctx) -> None:
 def r9(ctx: Ctx) -> None:
     f = ctx.func("Order.__init__")
     paths = ctx.paths(f.qualname)
+    more = [x for x in f.params if x not in ("self", "agent_id", "market_id", "is_buy", "kind", "volume", "placed_at", "price", "order_id", "ttl")]
+    tested = sorted({x for x in more for p in paths for c, _, _ in p.conds if any(s_ == ("sym", x) for s_ in subterms(strip_ver(c)))})
+    if tested:
+        ctx.unrec(f, f.node, "Order.__init__ validation", f"the constructor also validates parameter(s) the rule has no specification for ({', '.join(tested)}): which combinations are refused is not decided")
+        return
     cases = []
     for p in paths:
         sts = stores(p)
